@@ -66,7 +66,7 @@ def tx(kind, ins, outs, refs=(), w=1):
     return {"kind": kind, "ins": list(ins), "outs": list(outs), "refs": list(refs), "w": w}
 
 
-def scenario(name, root, nodes, txs, sets=(), rsets=(), look=(), txsetc=(), regime="both", side=(), maxpool=99):
+def scenario(name, root, nodes, txs, sets=(), rsets=(), look=(), txsetc=(), regime="both", side=(), maxpool=99, maxblock=99):
     """nodes: [(parent, [body tx ids])] for nodes 2.. (node 1 is the root: the tip of a linear
     warm-up prefix in the materialisation); root: leaves unspent at the root."""
     par = [0] + [p for p, _ in nodes]
@@ -76,7 +76,7 @@ def scenario(name, root, nodes, txs, sets=(), rsets=(), look=(), txsetc=(), regi
         h.append(h[p - 1] + 1)
     cr = [sorted(root)] + [sorted({o for t in b for o in txs[t - 1]["outs"]}) for _, b in nodes]
     sp = [[]] + [sorted({i for t in b for i in txs[t - 1]["ins"]}) for _, b in nodes]
-    return {"name": name, "regime": regime, "v1ok": regime == "both", "maxpool": maxpool, "n": len(par), "parent": par, "height": h, "body": body, "creates": cr, "spends": sp,
+    return {"name": name, "regime": regime, "v1ok": regime == "both", "maxpool": maxpool, "maxblock": maxblock, "n": len(par), "parent": par, "height": h, "body": body, "creates": cr, "spends": sp,
             "ntx": len(txs), "tx": txs, "sets": list(sets), "rsets": [list(r) for r in rsets], "look": list(look),
             "txsetc": list(txsetc), "side": list(side)}
 
@@ -175,7 +175,17 @@ def full_scenarios(tier):
           tx("v1", [4], [9])]            # 5 D  small v1
     setsb = [cset("v2", [1]), cset("v1", [5]), cset("v2", [2, 3]), cset("v2", [2]), cset("v2", [4]), cset("v2", [4, 3])]
     b = scenario("pool-heavy-sets", [1, 2, 3, 4], [], Tb, sets=setsb, maxpool=3)
-    return [a, b]
+    # c: the pool outgrows ONE BLOCK (maxblock = 3) with a parent/child pair straddling the cut:
+    #    [A, H, c] -- A fits, the heavy H does not, its small child c would: the assembler must stop at H
+    #    (seed C05-c: it skipped H and took c, a child without its parent)
+    Tc = [tx("v2", [1], [5]),            # 1 A  small
+          tx("v2", [2], [6], w=3),       # 2 H  heavy parent
+          tx("v2", [6], [7]),            # 3 c  small child of H
+          tx("v1", [3], [8]),            # 4 D  small v1
+          tx("v2", [4], [9], w=2)]       # 5 G  medium
+    setsc = [cset("v2", [1]), cset("v2", [2, 3]), cset("v1", [4]), cset("v2", [5]), cset("v2", [2]), cset("v2", [3])]
+    c = scenario("pool-mine-cut", [1, 2, 3, 4], [], Tc, sets=setsc, maxpool=99, maxblock=3)
+    return [a, b, c]
 
 
 def rebase_scenarios(tier):
@@ -413,7 +423,7 @@ def leg_t(wd, binary, prop, mode, verdict, devs, histories, steps, shards=8, tag
 
 ACCEPT = {
     "C14": r"^(audit:c14:|trace:C14:(AddSet|Lookup):|trace:C14:[A-Za-z]+:(Atomicity|KnownIffAllPooled|LookupExact|NoAliasing|TypeOK))",
-    "C05": r"^(audit:c05:|trace:C05:(Obs|Mine|Submit|Revert|Apply|Done|Reset):|trace:C05:[A-Za-z]+:(PrefixValid|Retention|NoInvention|Minable|TypeOK))",
+    "C05": r"^(audit:c05:|trace:C05:(Obs|Mine|Submit|Revert|Apply|Done|Reset):|trace:C05:[A-Za-z]+:(PrefixValid|Retention|NoInvention|Minable|Mined|EvictOnlyWhenFull|TypeOK))",
     "C13": r"^(audit:c13:|trace:C13:(Rebase|TxSet):|trace:C13:AddSet:unexplained:stale-basis|trace:C13:[A-Za-z]+:(Rebase|ParentsFirst|BasisIsTip|TxSetErrors|NoPanic))",
 }
 
